@@ -477,7 +477,73 @@ def b4(ctx, F, nodes):
               what="the table move is the entry's pv and nothing else", found=src)
 
 
+def tactical_table(ctx, F):
+    """The capture-only rule of the quiescence search is part of the reference: `is_tactical_move` decided by cases - a capture of a
+    piece worth at least the capturing one, every promotion, every en-passant capture; nothing else.  A move kind dropped from
+    it (or added to it) changes what the leaves of every search return."""
+    from .common import sym_fn, discr_map
+    fn = F.fn("chess::move_struct::Move::is_tactical_move")
+    nf = sym_fn(fn, F)
+    D = discr_map(F)
+    MV_, PT_, PL_ = "chess::move_struct::Move::", "chess::piece::PieceType::", "chess::Player::"
+    SOME, NONE = "std::prelude::v1::Some", ("variant", "std::prelude::v1::None")
+    VAL = {"Pawn": 1, "Knight": 3, "Bishop": 3, "Rook": 5, "Queen": 9, "King": 100}
+    got_vals = {}
+    try:
+        mvf = sym_fn(F.fn("chess::piece::PieceType::material_value"), F)
+        for k_ in VAL:
+            got_vals[k_] = hir.sym_int(hir.fold(mvf, {("var", "self"): ("variant", PT_ + k_)}, D))
+    except core.AnchorMissing:
+        pass
+
+    def pc(kind, owner):
+        return ("struct", "chess::piece::Piece", (("owner", ("variant", PL_ + owner)), ("piece_type", ("variant", PT_ + kind))))
+    cases = []
+    for a_, b_ in (("Pawn", "Queen"), ("Queen", "Pawn"), ("Knight", "Bishop"), ("Rook", "Rook"), ("Bishop", "Pawn"), ("Pawn", "Pawn"), ("King", "Rook"),
+                   ("Rook", "Queen")):
+        mv = ("struct", MV_ + "Normal", (("captured_piece", ("ctor", SOME, (pc(b_, "Black"),))), ("end", ("pos", 4, 4)), ("piece", pc(a_, "White")),
+                                          ("start", ("pos", 3, 3))))
+        cases.append(("%s takes %s" % (a_, b_), mv, VAL[a_] <= VAL[b_]))
+    cases.append(("quiet move", ("struct", MV_ + "Normal", (("captured_piece", NONE), ("end", ("pos", 4, 4)), ("piece", pc("Queen", "White")),
+                                                            ("start", ("pos", 3, 3)))), False))
+    cases.append(("promotion", ("struct", MV_ + "Promotion", (("captured_piece", NONE), ("end", ("pos", 7, 0)), ("new_piece", ("variant", PT_ + "Knight")),
+                                                              ("owner", ("variant", PL_ + "White")), ("start", ("pos", 6, 0)))), True))
+    cases.append(("capturing promotion", ("struct", MV_ + "Promotion", (("captured_piece", ("ctor", SOME, (pc("Rook", "White"),))), ("end", ("pos", 0, 1)),
+                                                                        ("new_piece", ("variant", PT_ + "Queen")), ("owner", ("variant", PL_ + "Black")),
+                                                                        ("start", ("pos", 1, 0)))), True))
+    for o_ in ("White", "Black"):
+        cases.append(("en passant %s" % o_, ("struct", MV_ + "EnPassant", (("end_col", ("lit", 3)), ("owner", ("variant", PL_ + o_)), ("start_col", ("lit", 4)))), True))
+        cases.append(("castling short %s" % o_, ("struct", MV_ + "CastlingShort", (("owner", ("variant", PL_ + o_)),)), False))
+        cases.append(("castling long %s" % o_, ("struct", MV_ + "CastlingLong", (("owner", ("variant", PL_ + o_)),)), False))
+    def piece_value(args):
+        # Piece::material_value(piece) = the crate's own PieceType table applied to the piece's kind (evaluated above)
+        a0 = args[0] if args else ()
+        if a0 and a0[0] == "struct":
+            kind = dict(a0[2]).get("piece_type")
+            if kind and kind[0] == "variant" and got_vals.get(kind[1].rsplit("::", 1)[-1]) is not None:
+                return ("lit", got_vals[kind[1].rsplit("::", 1)[-1]])
+        return None
+
+    def kind_value(args):
+        a0 = args[0] if args else ()
+        if a0 and a0[0] == "variant" and got_vals.get(a0[1].rsplit("::", 1)[-1]) is not None:
+            return ("lit", got_vals[a0[1].rsplit("::", 1)[-1]])
+        return None
+    ev = {"chess::piece::Piece::material_value": piece_value, "chess::piece::PieceType::material_value": kind_value}
+    bad = []
+    for name, mv, want in cases:
+        v = hir.fold(nf, {("var", "self"): mv}, D, None, ev)
+        if v != ("lit", want):
+            bad.append((name, hir.fmt(v, 80), want))
+    ctx.check("C09.B5", "capture-only-rule-of-the-leaf-search", not bad and got_vals == VAL, fn=fn["path"], file=fn["file"], line=fn["span"][0],
+              what="the moves the quiescence search tries are no longer: captures of a piece worth at least the capturing one, all promotions, "
+                   "all en-passant captures (a kind dropped here is never searched at the leaves, a kind added changes every leaf value)",
+              expected="Normal: captured.is_some_and(value(piece) <= value(captured)); Promotion, EnPassant: true; castling: false; values 1/3/3/5/9/100",
+              found={"cases": bad[:4], "values": got_vals} if (bad or got_vals != VAL) else "%d cases" % len(cases))
+
+
 def b5(ctx, F, nodes):
+    tactical_table(ctx, F)
     nd = nodes[Q]
     stmts = [hir.strip(s) for s in hir.strip(nd.body).get("stmts") or ()]
     cur = None
